@@ -14,6 +14,14 @@ CLAIMED = {
          "Structural necessary condition of crash-restart equivalence: module code never writes process-resident state (package variables, keeper/server/hook fields, memory stores), so it is a function of (committed stores, message). Decided for every consensus-reachable function; SDK/IAVL restart behaviour is not decided.",
          "Trusts dependencies and generated code; aliasing through nested heap pointers is not tracked.",
          "DESIGN.md §3 C03"),
+ "C02": ("E4: natural-loop classification with termination variants (induction variable + bounding test, iterator Valid/Next, range Next, shrinking slice), call-cycle detection, guard dominance for divisions and coin subtractions in block-hook-reachable code, validated-parameter bound derivation",
+         "Structural necessary conditions of liveness over every consensus-reachable hand-written function: each loop has a recognised termination variant, no recursion; in code that runs without panic recovery (Begin/EndBlock, staking hooks fired by the staking end-blocker) every division has a provably non-zero divisor and every Coin subtraction is dominated by a comparison of its operands. A pass is a proof of those clauses for all paths; index/nil/bank panics and time bounds are not decided.",
+         "Trusts dependencies and generated code; stored bech32 addresses valid (A-addr); record fields non-negative for arithmetic form AF1 (A-nonneg); guard and use of a memory-held operand not separated by a write (A-flow).",
+         "DESIGN.md §3 C02"),
+ "C18": ("E6: writer/reader table agreement between the store prefixes written by consensus code (effect summaries over the call graph) and those read by ExportGenesis / written by InitGenesis; GenesisState field and parameter-key symmetry",
+         "Structural necessary condition of the genesis round trip: every constant store prefix that consensus code writes is exported and re-imported by its module, every GenesisState field is assigned on export and consumed on import, every registered parameter key is exported. A missing table entry is state silently dropped by export/import. Validate(), JSON fidelity and continuation equivalence are not decided.",
+         "Trusts dependencies; store keys are opened only through prefix.NewStore(ctx.KVStore(k.<key>), KeyPrefix(const)) (an unresolved prefix on a consensus path makes the check undecided, not passing).",
+         "DESIGN.md §3 C18"),
 }
 
 NA_REASON = "check not implemented yet (framework under construction; see DESIGN.md section 3 for the planned structural clauses)"
